@@ -63,3 +63,12 @@ package fs
 //@   requires @inv f != nil
 //@   at call filepath.Join:1 assert @C02 len(arg0__) == 2 && arg0__[0] == f.LFSStorageDir && arg0__[1] == "objects"
 //@   ensures @C02 old(len(f.lfsobjdir)) != 0 ==> result == old(f.lfsobjdir)
+
+// "The object is here" means: a file of exactly the pointer's size lies at
+// the object's own path (size 0: trivially so, the empty object is not stored).
+//@ func (*Filesystem).ObjectExists
+//@   props C02 C09 C04 C03
+//@   requires @inv f != nil
+//@   at call (*fs.Filesystem).ObjectPathname:1 assert arg0__ == f && arg1__ == oid
+//@   at call tools.FileExistsOfSize:1 assert arg1__ == size
+//@   ensures @C04 result && size != 0 && oid != EmptyObjectSHA256 ==> fexists(objpath(oid)) && len(fdata(objpath(oid))) == size
